@@ -2,7 +2,7 @@
 C17 — the fragment `W` on which token preservation and idempotence are PROVED
 (`Props.fmt_preserves_tokens_partial`, `Props.fmt_idempotent_partial`):
 
-  plain words · arbitrary blanks / tabs / newlines / other Unicode white space (no CR) ·
+  plain words, also with placeholders (`{x}`, `a{x}b`, `{$ENV}`) · arbitrary blanks / tabs / newlines / other Unicode white space (no CR) ·
   nested blocks written `… {⏎ … ⏎}` — an opening brace is the last word of its line (or the
   very first word of the file), a closing brace is alone on its line ·
   simple double-quoted strings `"…"` (one line, no backslash, followed by white space) ·
@@ -10,8 +10,8 @@ C17 — the fragment `W` on which token preservation and idempotence are PROVED
 
 Everything else (multi-line / escaped quotes, backquotes, heredocs, escapes, `<`, `#` inside words, braces glued to
 words, one-line blocks, CR, BOM …) is excluded; most of it is excluded because the property is
-FALSE there (Witness.lean, known_findings.jsonl), the rest (quoted tokens, heredocs,
-placeholders, continuations) because the proof has not been extended to it.
+FALSE there (Witness.lean, known_findings.jsonl), the rest (multi-line / escaped quoted tokens,
+backquoted tokens, heredocs, continuations) because the proof has not been extended to it.
 
 A file is cut into chunks = (white-space run, following word).  `inW` is a decidable predicate
 on rune strings; it re-flattens the chunks and compares with the input, so no correctness
@@ -64,6 +64,14 @@ def flatten : List Chunk → List Rune
   | [] => []
   | c :: cs => c.sep ++ (c.word ++ flatten cs)
 
+/-- a word with placeholders: plain characters and groups `{…}` of plain characters (`{x}`,
+    `a{x}b`, `{$ENV}`, `{}`); the flag says whether a group is open -/
+def pwOK : Bool → List Rune → Bool
+  | false, [] => true
+  | true, [] => false
+  | false, c :: t => if c == rOpen then pwOK true t else plainCh c && pwOK false t
+  | true, c :: t => if c == rClose then pwOK false t else plainCh c && pwOK true t
+
 /-- `t` = content of a simple string followed by its closing quote -/
 def dqTail : List Rune → Bool
   | [] => false
@@ -71,13 +79,14 @@ def dqTail : List Rune → Bool
   | c :: t => dqCh c && dqTail t
 
 /-- the word is `{`, `}`, a comment without trailing blank, a simple double-quoted string
-    `"…"` (one line, no backslash), or a non-empty run of plain characters -/
+    `"…"` (one line, no backslash), or a non-empty word of plain characters and placeholder
+    groups `{…}` -/
 def Chunk.wordOK (c : Chunk) : Bool :=
   c.word == [rOpen] || c.word == [rClose] ||
   (match c.word with
    | [] => false
    | h :: t => (h == rHash && t.all cmtCh && !isSpace (lastOf h t)) || (h == rDQ && dqTail t) ||
-               (plainCh h && t.all plainCh))
+               pwOK false (h :: t))
 
 /-- well-formedness of the chunk list, given the kind of the previous word
     (`none` = this is the first word of the file) -/
@@ -144,6 +153,11 @@ def nextN (N : Nat) : Kind → Nat
   | .cls => N - 1
   | _ => N
 
+/-- a word that starts with a placeholder brace, on a new line after a word or a string: the
+    formatter has already written the blank it writes before a `{` when it meets the line break -/
+def braceLead (prev : Option Kind) (c : Chunk) : List Rune :=
+  if (prev = some .plain ∨ prev = some .dq) ∧ c.word.head? = some rOpen then [rSP] else []
+
 /-- the separator `Format` writes before chunk `c`; `N` = nesting after the previous word.
     After a comment the first newline is the one that ends the comment. -/
 def canonSep (prev : Option Kind) (N : Nat) (c : Chunk) : List Rune :=
@@ -156,7 +170,7 @@ def canonSep (prev : Option Kind) (N : Nat) (c : Chunk) : List Rune :=
     match c.kind with
     | .opn => [rSP]
     | .cls => rNL :: tabsN (N - 1)
-    | _ => if c.nl = 0 then [rSP] else nlsN (min c.nl 2) ++ tabsN N
+    | _ => if c.nl = 0 then [rSP] else braceLead prev c ++ (nlsN (min c.nl 2) ++ tabsN N)
 
 def canon : Option Kind → Nat → List Chunk → List Chunk
   | _, _, [] => []
